@@ -71,6 +71,9 @@ type runIn struct {
 }
 
 type input struct {
+	// Dump asks for the timing tables of every preset as Coq terms (used by the
+	// translator step of the check, see lib/props/c22.py)
+	Dump   bool      `json:"dump,omitempty"`
 	Spec   SpecIn    `json:"spec"`
 	Kernel *kernelIn `json:"kernel,omitempty"`
 	Run    *runIn    `json:"run,omitempty"`
@@ -563,6 +566,9 @@ func run(raw json.RawMessage) (hx.Case, error) {
 	if err := hx.UJ(raw, &in); err != nil {
 		return hx.Case{}, err
 	}
+	if in.Dump {
+		return dumpPresets()
+	}
 	spec, err := MakeSpec(in.Spec)
 	if err != nil {
 		return hx.Case{}, err
@@ -576,3 +582,17 @@ func run(raw json.RawMessage) (hx.Case, error) {
 	return hx.Case{}, fmt.Errorf("input has neither kernel nor run")
 }
 
+
+// dumpPresets returns, as Coq terms, the tables the REAL builder generates for every
+// preset (both page policies share them; tFAW and the Spec fields come along).
+func dumpPresets() (hx.Case, error) {
+	out := map[string]string{}
+	for _, n := range PresetNames() {
+		k := dram.NewVerifKernel(Presets()[n])
+		out[n] = CoqTables(k.Tables())
+	}
+	in := input{Spec: SpecIn{Preset: "Default"}, Kernel: &kernelIn{}}
+	c, err := runKernel(in, Presets()["Default"])
+	c.Obs = out
+	return c, err
+}
